@@ -1,13 +1,83 @@
 /-
-  Driver/Probe — command(s) of the `probe` family (stub: filled in by the owner of the corresponding properties).
+  Driver/Probe — commands `interp` (table evaluation, C10) and `ctor` (constructor call, C11).
+
+  interp : {"cmd":"interp","carrier":…,"table":<PV dict, optional "__diag">,"z":"eff"|"vdrop"|"ig",
+            "queries":[[x,y],…]}
+           → {"ok":true,"dim":1|2,"values":[…],"values_t":[…],"values_f":[…]}
+             (`values` under the transmitted diagonal choice, `values_t` / `values_f` with every cell cut
+              by the low-low/high-high resp. the other diagonal; equal to `values` for 1-D tables)
+           | {"ok":false,"error":{cls,detail}}         (`mkTable` rejected the table)
+  ctor   : {"cmd":"ctor","carrier":…,"kind":…,"name":…,"args":<PV dict>}
+           → {"ok":true,"params":<PV of Comp.params>,"fields":{…normalised numeric fields…},
+              "par":{"dim":0|1|2,"const":…},"limits":[[key,[lo,hi]],…]}
+           | {"ok":false,"error":{cls,detail}}
 -/
 import SysLoss.Driver.Wire
 
 open Lean
 
 namespace SysLoss
+section
+variable {α : Type} [Add α] [Sub α] [Mul α] [Div α] [Neg α] [LT α] [DecidableLT α]
+  [OfNat α 0] [OfNat α 1] [OfNat α 2] [OfNat α 100] [OfNat α 1000000] [Wire α]
+
+/-- the same table with every cell cut by the same diagonal -/
+def Param.withDiag (p : Param α) (d : Bool) : Param α :=
+  match p with
+  | .tab2 xs ys f _ => .tab2 xs ys f (List.replicate ys.length (List.replicate xs.length d))
+  | q => q
+
+def Param.dim : Param α → Nat
+  | .const _ => 0 | .tab1 _ _ => 1 | .tab2 _ _ _ _ => 2
+
+def cmdInterp (j : Json) : Json :=
+  match (pvOf (α := α) ((j.getObjVal? "table").toOption.getD .null)) with
+  | .dict d =>
+    match mkTable d (jStr j "z") with
+    | .error e => Json.mkObj [("ok", false), ("error", errOut e)]
+    | .ok (p, _) =>
+      let qs : List (Option (α × α)) := (jArr j "queries").toList.map fun q =>
+        match q with
+        | .arr #[a, b] => (match numOf a, numOf b with | some x, some y => some (x, y) | _, _ => none)
+        | _ => none
+      if qs.any Option.isNone then Json.mkObj [("bad-op", "interp: malformed query")]
+      else
+        let ev (p : Param α) : Json :=
+          .arr (qs.filterMap fun q => q.map fun (x, y) => Wire.out (p.interp x y)).toArray
+        Json.mkObj [("ok", true), ("dim", p.dim), ("values", ev p),
+          ("values_t", ev (p.withDiag true)), ("values_f", ev (p.withDiag false))]
+  | _ => Json.mkObj [("bad-op", "interp: table is not a dict")]
+
+def cmdCtor (j : Json) : Json :=
+  match kindOf (jStr j "kind") with
+  | none => Json.mkObj [("bad-op", "ctor: unknown kind " ++ jStr j "kind")]
+  | some k =>
+    match j.getObjVal? "args" with
+    | .error _ => Json.mkObj [("bad-op", "ctor: no args")]
+    | .ok aj =>
+      match mkComp k (jStr j "name") (argsOf (α := α) aj) with
+      | .error e => Json.mkObj [("ok", false), ("error", errOut e)]
+      | .ok c =>
+        Json.mkObj [("ok", true),
+          ("params", pvOut (PV.dict c.params)),
+          ("fields", Json.mkObj [("vo", Wire.out c.vo), ("rs", Wire.out c.rs),
+            ("rsList", match c.rsList with
+              | some l => .arr (l.map Wire.out).toArray | none => .null),
+            ("vdrop", Wire.out c.vdrop), ("iq", Wire.out c.iq), ("iis", Wire.out c.iis),
+            ("rt", Wire.out c.rt), ("pwr", Wire.out c.pwr), ("pwrs", Wire.out c.pwrs),
+            ("ii", Wire.out c.ii), ("loss", c.loss), ("diode", c.diode)]),
+          ("par", Json.mkObj [("dim", c.par.dim),
+            ("const", match c.par with | .const v => Wire.out v | _ => .null)]),
+          ("limits", .arr (c.limits.map fun (key, (lo, hi)) =>
+            Json.arr #[.str key, .arr #[Wire.out lo, Wire.out hi]]).toArray)]
+
+end
 
 def cmdProbe (j : Json) : Json :=
-  Json.mkObj [("bad-op", "unimplemented: " ++ jStr j "cmd")]
+  let fl := jStr j "carrier" == "float"
+  match jStr j "cmd" with
+  | "interp" => if fl then cmdInterp (α := Float) j else cmdInterp (α := Rat) j
+  | "ctor" => if fl then cmdCtor (α := Float) j else cmdCtor (α := Rat) j
+  | c => Json.mkObj [("bad-op", "probe: " ++ c)]
 
 end SysLoss
